@@ -112,6 +112,26 @@ pub fn instances() -> Vec<Inst> {
 /// used by the pair space only.
 pub fn instances_with_units() -> Vec<Inst> {
     let mut v = instances();
+    // every keyword and type name continued by an underscore, a digit or a letter is an
+    // identifier (also the line and header keywords)
+    let last = SyntaxKind::__LAST as u16;
+    let mut words: Vec<String> = vec!["pragma".into(), "OPENQASM".into(), "dim".into()];
+    for raw in 0..last {
+        let k = SyntaxKind::from(raw);
+        let name = format!("{:?}", k);
+        if k.is_keyword() && name != "O_P_E_N_Q_A_S_M_KW" {
+            words.push(name.trim_end_matches("_KW").to_lowercase());
+        } else if k.is_scalar_type() {
+            words.push(name.trim_end_matches("_TY").to_lowercase());
+        }
+    }
+    words.sort();
+    words.dedup();
+    for w in words {
+        for tail in ["_", "_mode", "1", "x", "é"] {
+            v.push(inst(&format!("{}{}", w, tail), "IDENT"));
+        }
+    }
     let ints = ["0", "7", "17", "1_000", "1_0", "007", "0b101", "0b1_01", "0B1_0", "0o17", "0o1_7", "0x1F", "0x1_F", "0xA_b", "0x_1", "0XaB_c", "0xdead_BEEF", "340282366920938463463374607431768211455"];
     let floats = ["1.5", "1.", ".5", "0.0", "1e3", "1E+3", "1.5e-3", ".5e1", "1_0.0_1", "12.e2", "1e0", "6.02E23", "20.", "0.", "0e3", "0E3", "0E-3", "1E3", "2E-1"];
     for unit in ["ns", "us", "µs", "ms", "s", "dt", "im"] {
